@@ -139,7 +139,7 @@ def gen_zone(rng):
           rng.random() < 0.15]       # ignoretz
     if kind in ("tzinfos_map", "tzinfos_callable", "tzinfos_over_local",
                 "tzinfos_over_utc"):
-        op.append(rng.choice(["tzinfo", "int", "str", "none"]))
+        op.append(rng.choice(["tzinfo", "int", "int0", "str", "none"]))
         op.append(rng.choice(TZINFOS_NAMES))
     elif kind in ("local", "local_ambiguous"):
         op.append(rng.randrange(2))
@@ -149,8 +149,14 @@ def gen_zone(rng):
     elif kind in ("numeric", "numeric_named"):
         op.append(rng.choice([3600, -10800, 19800, -12600, 86340, -86340,
                               rng.randrange(-1439, 1440) * 60]))
-        op.append(rng.choice([" +HH:MM", "+HH:MM", " +HHMM", "+HHMM"]))
+        op.append(rng.choice([" +HH:MM", "+HH:MM", " +HHMM", "+HHMM",
+                              " +H", " +H:MM"]))
         op.append(rng.choice(["BRST", "XYZT", "QWE"] + UNKNOWN_NAMES))
+        if op[-2] in (" +H", " +H:MM"):
+            # offsets written with a single hour digit: -3, +9, +5:30
+            h = rng.choice([-9, -5, -3, -1, 1, 3, 5, 9])
+            m = rng.choice([0, 30, 45]) if op[-2] == " +H:MM" else 0
+            op[-3] = h * 3600 + (m * 60 if h > 0 else -m * 60)
     elif kind == "gmt_plus":
         op.append(rng.choice(["GMT", "UTC"]))
         op.append(rng.choice([-11, -5, -1, 1, 3, 9, 12]))
@@ -478,6 +484,8 @@ def tzinfos_value(env, vkind, name):
         return _Fixed(name, -7200)
     if vkind == "int":
         return -7200
+    if vkind == "int0":
+        return 0
     if vkind == "str":
         return "AAA3BBB,M3.2.0,M11.1.0"
     return None
@@ -543,7 +551,16 @@ def do_zone(env, ctx, op):
         tag = "tz.utc_designator"
     elif kind in ("numeric", "numeric_named"):
         off, form, name = op[4], op[5], op[6]
-        suf = R.render_offset(form, off)
+        if form in (" +H", " +H:MM"):
+            a = abs(off)
+            if a >= 36000 or a % 60 or (form == " +H" and a % 3600):
+                return False
+            suf = " %s%d" % ("-" if off < 0 else "+", a // 3600)
+            if form == " +H:MM":
+                suf += ":%02d" % (a % 3600 // 60)
+            ctx.probe("tz.single_digit_hour_offset")
+        else:
+            suf = R.render_offset(form, off)
         if suf is None:
             return False
         text = base + suf
@@ -648,7 +665,7 @@ def do_zone(env, ctx, op):
         _, vkind, name, val = expect
         if vkind == "tzinfo":
             ok = got.tzinfo is val
-        elif vkind == "int":
+        elif vkind in ("int", "int0"):
             ok = isinstance(got.tzinfo, tz.tzoffset) and \
                 got.utcoffset().total_seconds() == val and \
                 got.tzname() == name
@@ -661,6 +678,29 @@ def do_zone(env, ctx, op):
     if not ok:
         detail["expected"] = [str(x) for x in expect]
         ctx.violation("C15.zone_resolution_wrong", detail)
+        return True
+    # "any text accepted without fuzzy yields the same result with fuzzy":
+    # zone texts too, not only the filler sentences
+    if (f[4] + f[5]) % 3 == 0:
+        try:
+            fz, fwarns = env.parse(text, fuzzy=True, **kw)
+        except Exception as e:
+            detail.update(exc=type(e).__name__, msg=str(e)[:120])
+            ctx.violation("C15.fuzzy_rejects_accepted_text", detail)
+            return True
+        ctx.checks += 1
+        ctx.probe("fuzzy.zone_text_same")
+        same = fz.replace(tzinfo=None) == got.replace(tzinfo=None) and \
+            (fz.tzinfo is None) == (got.tzinfo is None) and \
+            (fz.tzinfo is None or (fz.utcoffset() == got.utcoffset() and
+                                   fz.tzname() == got.tzname() and
+                                   type(fz.tzinfo) is type(got.tzinfo))) \
+            and fwarns == warns
+        if not same:
+            detail.update(fuzzy=fz.isoformat(),
+                          fuzzy_tzinfo=repr(fz.tzinfo)[:80],
+                          fuzzy_warnings=fwarns)
+            ctx.violation("C15.fuzzy_differs_from_plain", detail)
     return True
 
 
